@@ -182,7 +182,7 @@ func c20Bridge(e *Env, rng *RNG) {
 		}
 		t = c20bridgeEnrich(r, t)
 		text := c01parseRender(t, 1, 1, nil)
-		toks, nTok, err := c01parseLex(text)
+		toks, nTok, err := c20wLex(e, text)
 		if err != nil {
 			e.R.Mismatch(text, "lexer error: "+err.Error(), "-", "real lexer rejects the rendering of an expression tree")
 			continue
@@ -224,7 +224,7 @@ func c20Bridge(e *Env, rng *RNG) {
 		}
 		// (b) Lean's source text of the tree through the real lexer and parser
 		leanSrc := UnHex(f[2])
-		toks2, _, err := c01parseLex(leanSrc)
+		toks2, _, err := c20wLex(e, leanSrc)
 		switch {
 		case err != nil:
 			e.R.H("bridge_renderSrc_lex", "real lexer error")
@@ -235,7 +235,7 @@ func c20Bridge(e *Env, rng *RNG) {
 		default:
 			e.R.H("bridge_renderSrc_lex", "same tokens as the harness text")
 		}
-		if real := c01parseReal(leanSrc); real != it.sexp {
+		if real := c20wReal(e, leanSrc); real != it.sexp {
 			e.R.H("bridge_renderSrc_parse", "real parser returns another tree")
 			e.R.Spec(leanSrc, "the real lexer + parser read the canonical source text of "+c01parseShow(it.sexp)+" as "+c01parseShow(real)+
 				" (parse_lex_renderSrc proves the models return the tree)", "")
@@ -255,7 +255,7 @@ func c20Bridge(e *Env, rng *RNG) {
 			if f[5] != "1" {
 				e.R.Mismatch(it.gaps, "well-formed gaps", "Gap.ok = false", "the harness's gaps are not the theorem's gaps")
 			}
-			toks3, _, err := c01parseLex(laySrc)
+			toks3, _, err := c20wLex(e, laySrc)
 			switch {
 			case err != nil:
 				e.R.H("bridge_layout_lex", "real lexer error")
@@ -268,7 +268,7 @@ func c20Bridge(e *Env, rng *RNG) {
 				laySrcs = append(laySrcs, laySrc)
 				layToks = append(layToks, toks3)
 			}
-			if real := c01parseReal(laySrc); real != it.sexp {
+			if real := c20wReal(e, laySrc); real != it.sexp {
 				e.R.H("bridge_layout_parse", "real parser returns another tree")
 				e.R.Spec(laySrc, "layout changes the syntax tree: "+c01parseShow(real)+" instead of "+c01parseShow(it.sexp), "")
 			} else {
